@@ -18,8 +18,9 @@ use std::{
 
 use crate::{
     dlt::{
-        DltChar4, DltExtendedHeader, DltMessage, DltStandardHeader, DLT_STD_HDR_BIG_ENDIAN,
-        DLT_STD_HDR_HAS_EXT_HDR, DLT_STD_HDR_HAS_TIMESTAMP, DLT_STD_HDR_VERSION,
+        DltChar4, DltExtendedHeader, DltMessage, DltStandardHeader, DLT_EXT_HEADER_SIZE,
+        DLT_MIN_STD_HEADER_SIZE, DLT_STD_HDR_BIG_ENDIAN, DLT_STD_HDR_HAS_EXT_HDR,
+        DLT_STD_HDR_HAS_TIMESTAMP, DLT_STD_HDR_VERSION,
     },
     dlt_args,
     filter::{Filter, FilterKind, FilterKindContainer},
@@ -268,7 +269,11 @@ impl ExportPlugin {
                 for (idx, info_text) in self.info_texts.iter().enumerate() {
                     if !info_text.is_empty() {
                         let (noar, payload) = dlt_args!(info_text).unwrap_or_default();
-                        if noar > 0 {
+                        // the len field of the standard header has 16 bits: to_write refuses a larger msg
+                        // but only after the storage header is written (the file would be corrupt)
+                        let fits = DLT_MIN_STD_HEADER_SIZE + 4 + DLT_EXT_HEADER_SIZE + payload.len()
+                            <= u16::MAX as usize;
+                        if noar > 0 && fits {
                             let info_msg =
                                 self.get_info_msg(((idx + 1) % 256) as u8, msg, noar, payload);
                             let _ = info_msg.to_write(&mut export_file);
